@@ -24,7 +24,8 @@ IsEv == l <= Len(T) /\ l' = l + 1 /\ UNCHANGED tid
 KindsOk == \A i \in DOMAIN Ev.kinds : Ev.kinds[i] \in Kinds \cup ListenKinds
 Match ==
     CASE Ev.a = "Sense"    -> /\ KindsOk /\ Ev.iters >= 1
-                              /\ Sense(Ev.kinds, Ev.iters)
+                              /\ Ev.interval >= 0 /\ Ev.cycle >= 0
+                              /\ Sense(Ev.kinds, Ev.iters, Ev.interval, Ev.cycle)
       [] Ev.a = "Listen"   -> Len(Ev.kinds) = 1 /\ Ev.kinds[1] \in ListenKinds /\ Listen(Ev.kinds[1])
       [] Ev.a = "Exchange" -> Exchange
       [] OTHER -> FALSE
@@ -32,17 +33,19 @@ Guarded == IsEv /\ Match
 ResOk == /\ last'.res = Ev.res
          /\ last'.idx = Ev.idx
          /\ last'.sent = (IF Ev.a = "Exchange" THEN Ev.sent ELSE "")
+         /\ (Ev.a = "Sense" => last'.pauses = Ev.pauses)          \* the arguments of time.sleep(), in microseconds
          /\ (Ev.a = "Sense" => Ev.sent = "mute-first")            \* sense() starts by switching the field off
          /\ (Ev.a = "Sense" /\ Ev.res = "none") => Ev.muted
 PostOk == target' = Ev.target /\ field' = Ev.field
 
-InvNames == <<"FirstFound", "UnsupportedIgnored", "Raises", "MuteWhenNone", "TargetFresh", "ExchangeOk">>
+InvNames == <<"FirstFound", "UnsupportedIgnored", "Raises", "MuteWhenNone", "TargetFresh", "ExchangeOk", "Pauses">>
 InvP(n) == CASE n = "FirstFound" -> FirstFoundP(last')
              [] n = "UnsupportedIgnored" -> UnsupportedIgnoredP(last')
              [] n = "Raises" -> RaisesP(last')
              [] n = "MuteWhenNone" -> MuteWhenNoneP(last', field')
              [] n = "TargetFresh" -> TargetFreshP(last', target')
              [] n = "ExchangeOk" -> ExchangeP(last', target)
+             [] n = "Pauses" -> PausesP(last')
 AllInv == \A i \in DOMAIN InvNames : InvP(InvNames[i])
 
 Real == Guarded /\ ResOk /\ PostOk /\ AllInv
@@ -51,7 +54,8 @@ Exp == IF Ev.a = "Sense" /\ KindsOk THEN SenseRes(Ev.kinds) ELSE [res |-> "-", i
 FailedInv == SelectSeq(InvNames, LAMBDA n : ~ENABLED (Guarded /\ ResOk /\ PostOk /\ InvP(n)))
 \* the contract evaluated on what was OBSERVED (when the real outcome is not the one the model produces)
 Obs == [op |-> CASE Ev.a = "Sense" -> "sense" [] Ev.a = "Listen" -> "listen" [] OTHER -> "exchange",
-        kinds |-> Ev.kinds, iters |-> Ev.iters, res |-> Ev.res, idx |-> Ev.idx, sent |-> Ev.sent, had |-> target]
+        kinds |-> Ev.kinds, iters |-> Ev.iters, res |-> Ev.res, idx |-> Ev.idx, sent |-> Ev.sent, had |-> target,
+        interval |-> Ev.interval, cycle |-> Ev.cycle, pauses |-> Ev.pauses]
 ObsBroken ==
     SelectSeq(InvNames, LAMBDA n :
         CASE n = "FirstFound" -> ~FirstFoundP(Obs)
@@ -59,7 +63,8 @@ ObsBroken ==
           [] n = "Raises" -> ~RaisesP(Obs)
           [] n = "MuteWhenNone" -> ~MuteWhenNoneP(Obs, Ev.field) \/ (Ev.a = "Sense" /\ Ev.res = "none" /\ ~Ev.muted)
           [] n = "TargetFresh" -> ~TargetFreshP(Obs, Ev.target)
-          [] n = "ExchangeOk" -> ~ExchangeP(Obs, target))
+          [] n = "ExchangeOk" -> ~ExchangeP(Obs, target)
+          [] n = "Pauses" -> ~PausesP(Obs))
 Why == IF ~ENABLED Guarded THEN <<"guard", [nops |-> nops]>>
        ELSE IF ~ENABLED (Guarded /\ ResOk /\ PostOk) /\ ObsBroken # <<>> THEN <<"inv", ObsBroken>>
        ELSE IF ~ENABLED (Guarded /\ ResOk) THEN <<"result", [expected |-> Exp, target |-> target, sent |-> SentFor(target)]>>
